@@ -264,8 +264,19 @@ def enc(s):
     return ",".join(str(ord(c)) for c in s) if s else "-"
 
 
+def config_error(cfg, flags):
+    """the documented domain after CLI overrides: an absolute warn point must stay below its limit"""
+    glob_lim = flags["max_lines"] if flags["max_lines"] is not None else cfg["max_lines"]
+    if cfg["warn"][0] == "at" and cfg["warn"][1] >= glob_lim:
+        return True
+    thr = flags["warn_threshold"]
+    if thr is not None and not (0.0 <= thr <= 1.0):
+        return True
+    return False
+
+
 def model_line(facts, sres, flags, cfg, baseline):
-    recs = ["RUN 0 %d - - %d %d" % (1 if flags["baseline"] else 0, int(flags["warn_only"]), int(flags["wae"] or cfg["wae_cfg"]))]
+    recs = ["RUN %d %d - - %d %d" % (int(config_error(cfg, flags)), 1 if flags["baseline"] else 0, int(flags["warn_only"]), int(flags["wae"] or cfg["wae_cfg"]))]
     for f in facts:
         recs.append("F %s %d %d %d %d %d %d" % (enc(f["path"]), f["scanned"], f["selected"], f["counted"], f["count"], f["limit"], f["warn"]))
     for s in sres:
@@ -380,6 +391,11 @@ def run(ctx):
                 if not mo:
                     raise CheckBroken("pipeline driver died")
                 mexit, mres = parse_model(mo[0])
+                if mexit == 2 and rc == 2 and not out.strip():
+                    hist["config_error"] = hist.get("config_error", 0) + 1
+                    if not err.strip():
+                        fails.append(("exit 2 without a diagnostic", cfg, flags, proj))
+                    continue
                 try:
                     cres = parse_cli(out)
                 except Exception:
